@@ -115,6 +115,34 @@ def corpus_text(i: int, k1: int, k2: int) -> str:
     return text_stream(doc, k1, k2, len(doc))
 
 
+MIX_PRE = ['', 'ab ', '\xe9 ']
+MIX_POST = ['', ' cd', ' \xe9', ' \U0001f600']
+
+
+def mixed(c: str, pre: int, post: int, k1: int, k2: int, as_bytes: bool) -> str:
+    """one free character (all code points) between pieces of other character classes (ASCII, Latin-1, BMP, astral),
+    delivered as a stream whose first two read sizes are solver variables: a decision the reader takes per piece
+    (what counts as printable, how wide a character is) must not depend on what else the piece holds"""
+    text = pick(pre, MIX_PRE) + c + pick(post, MIX_POST)
+    n = len(text)
+    try:
+        if as_bytes:
+            with standins.swap(yaml.reader, 'codecs', CODECS):
+                data = text.encode('utf-8')
+                ref = observe(data)
+                got = observe(Chunks(data, [k1, k2, len(data)]))
+        else:
+            ref = observe(text)
+            got = observe(Chunks(text, [k1, k2, n]))
+    except Exception as ex:
+        not_a_finding(ex)
+        return fail(P, exc_sig(ex), k1=k1)
+    reach()
+    if not same(ref, got):
+        return fail(P, ('BYTE-STREAM differs from the bytes form' if as_bytes else 'TEXT-STREAM differs from the str form'), k1=k1, k2=k2)
+    return 'ok'
+
+
 def corpus_bytes(i: int, e: int, k1: int, k2: int, k3: int) -> str:
     """corpus document in each encoding: whole bytes and a byte stream with solver-chosen splits
     give what the str gives (marks are character based, so they are comparable)"""
@@ -232,6 +260,15 @@ def jobs(tier):
                           [lambda i, e, k1, k2, k3, _i=i, _e=e, _n=n: i == _i and e == _e and 1 <= k1 <= _n and 1 <= k2 <= (_n if not q else 4) and k3 == _n],
                           budget=150 if q else 900, exhaust=False,
                           bounds='corpus document %d in %s (%d bytes): first read of every size, second read %s' % (i, ENCS[e], n, '1..4' if q else 'of every size')))
+    for pre in range(len(MIX_PRE)):
+        for post in range(len(MIX_POST)):
+            for ab in (False, True):
+                js.append(Job('mixed/%s/%d%d' % ('bytes' if ab else 'text', pre, post), mixed,
+                              [lambda c, pre, post, k1, k2, as_bytes, _p=pre, _q=post, _ab=ab: len(c) == 1 and pre == _p and post == _q and as_bytes == _ab
+                               and 1 <= k1 <= 4 and 1 <= k2 <= (2 if q else 4) and (0xd800 > ord(c) or ord(c) > 0xdfff or not _ab)],
+                              budget=250 if q else 1500,
+                              bounds='one free character (all code points%s) between %r and %r, as a %s stream, first read 1..4, second read 1..%d' % (
+                                  ', surrogates excluded' if ab else '', MIX_PRE[pre], MIX_POST[post], 'UTF-8 byte' if ab else 'text', 2 if q else 4)))
     for e in range(4):
         js.append(Job('bad-byte/%s' % ENCS[e], bad_byte,
                       [lambda i, e, off, k1, k2, _e=e: e == _e and 0 <= i < 8 and 0 <= off <= 12 and 1 <= k1 <= 6 and 1 <= k2 <= 6],
